@@ -647,7 +647,7 @@ func (ex *Exec) execBlock(act *activation, b *ssa.BasicBlock, st *PState) {
 		if st.g.IsFalse() {
 			return
 		}
-		if ex.lenientFn == act.fn {
+		if ex.lenientFn != nil && act.fn.Pkg == ex.lenientFn.Pkg && strings.HasPrefix(act.fn.Name(), "init") && act.fn.Signature.Recv() == nil {
 			if _, isCtl := instr.(*ssa.If); !isCtl {
 				if _, isJ := instr.(*ssa.Jump); !isJ {
 					if _, isR := instr.(*ssa.Return); !isR {
@@ -869,9 +869,18 @@ func (ex *Exec) lenientStep(act *activation, st *PState, instr ssa.Instruction, 
 		if _, isPhi := in.(*ssa.Phi); isPhi {
 			return false
 		}
-		save := ex.lenientFn
-		ex.lenientFn = nil
-		defer func() { ex.lenientFn = save }()
+		// calls to the package's own init#k functions stay lenient; everything else is strict
+		isInitCall := false
+		if c, ok := in.(*ssa.Call); ok {
+			if f := c.Call.StaticCallee(); f != nil && f.Pkg == act.fn.Pkg && strings.HasPrefix(f.Name(), "init") {
+				isInitCall = true
+			}
+		}
+		if !isInitCall {
+			save := ex.lenientFn
+			ex.lenientFn = nil
+			defer func() { ex.lenientFn = save }()
+		}
 		v := ex.evalValue(act, st, in)
 		setEnv(in, v)
 		return true
